@@ -15,10 +15,10 @@ cp patch.diff demo.sh meta.json $OUT/ 2>/dev/null
 cat $OUT/tests_with_change.txt; echo
 cargo build --offline >/dev/null 2>&1
 bash ./demo.sh > $OUT/demo_with_change.log 2>&1; rc_with=$?
-git stash -q
+git apply -R patch.diff
 cargo build --offline >/dev/null 2>&1
 bash ./demo.sh > $OUT/demo_without_change.log 2>&1; rc_without=$?
-git stash pop -q
+git apply patch.diff
 echo "demo rc with change=$rc_with without=$rc_without"
 cd /verif
 git -C /repo apply $OUT/patch.diff || { echo "patch does not apply to /repo"; continue; }
@@ -28,7 +28,7 @@ echo "own check rc=$rc_check: $(grep -E '^\[' $OUT/check_quick.log | head -3 | c
 python3 - <<PY
 import json
 m=json.load(open("$OUT/meta.json")) if __import__('os').path.exists("$OUT/meta.json") else {}
-m["confirmed"]={"tests_with_change":open("$OUT/tests_with_change.txt").read().strip(),"demo_rc_with_change":$rc_with,"demo_rc_without_change":$rc_without,"own_quick_check_rc":$rc_check,"what_was_run":"cargo test --offline (with change); demo.sh with and without the change (git stash); git -C /repo apply patch.diff; ./check $ID quick; git -C /repo checkout -- ."}
+m["confirmed"]={"tests_with_change":open("$OUT/tests_with_change.txt").read().strip(),"demo_rc_with_change":$rc_with,"demo_rc_without_change":$rc_without,"own_quick_check_rc":$rc_check,"what_was_run":"cargo test --offline (with change); demo.sh with and without the change (git apply -R / git apply); git -C /repo apply patch.diff; ./check $ID quick; git -C /repo checkout -- ."}
 json.dump(m,open("$OUT/meta.json","w"),indent=1)
 PY
 done
